@@ -39,6 +39,8 @@ def run_main(chk, replay=None):
             eng = e
         elif e["e"] == "IterBegin" and eng and e["calls"] >= 1 and (e["k"] >= 2 or "range" in eng["name"]):
             chk.nontrivial((eng["name"], eng["T"], e["kind"], e["d"], e["calls"]))
+    if not replay:
+        probe(chk, exes)
     chk.sample_each(rows, ("Engine", "IterBegin", "Draw", "IterEnd"))
     chk.cov["usage_table"] = sorted(set((e["name"], e["T"], e["digits"], e["lg"]) for e in rows if e["e"] == "Engine"))[:60]
     if thorough and ok and not replay:
@@ -54,7 +56,58 @@ def run_main(chk, replay=None):
         chk.cov["binding_selftest"] = "one raw draw removed at event %d: rejected (matched %s)" % (i + 1, r2.matched)
 
 
+def probe(chk, exes):
+    """engine adaptors of the standard library (std::independent_bits_engine over 7, 24 and 53 bits), every engine x numeric type in a trace of
+    its own: a rejection that is exactly a listed finding (known_findings.json: the predictor against libstdc++'s generate_canonical for 2^53 and
+    2^7 values in double) is reported as such, anything else as a violation"""
+    import os
+    done = []
+    for i, exe in enumerate(exes):
+        p = chk.path("probe.%d.ndjson" % i)
+        vt.run([exe, p, str(chk.seed + i), "2"], timeout=600)
+        rows = vt.read_ndjson(p)
+        os.remove(p)
+        parts, cur = [], None
+        for r in rows:
+            if r["e"] == "Engine":
+                cur = [r]
+                parts.append(cur)
+            elif cur is not None:
+                cur.append(r)
+        for part in parts:
+            name, T = part[0]["name"], part[0]["T"]
+            tp = chk.path("probe_%s_%s.ndjson" % (name, T.replace(" ", "_")))
+            vt.write_ndjson(tp, part[1:])
+            ok = probe_one(chk, name, T, tp)
+            done.append((name, T, bool(ok)))
+            if ok:
+                os.remove(tp)
+    chk.cov["probe_engines"] = done
+
+
+def probe_one(chk, name, T, tp):
+    rows = vt.read_ndjson(tp)
+    ok, matched, res = chk.validate("Trace_Call", tp, need_actions=("TIterBegin", "TIterEnd"), timeout=300, what="probe trace: %s, %s" % (name, T))
+    if ok:
+        return True
+    bad = rows[matched] if matched < len(rows) else {}
+    k = next((r["k"] for r in rows[:matched][::-1] if r["e"] == "IterBegin"), None)
+    if bad.get("e") == "IterEnd" and bad.get("predK") != k:
+        # the predictor disagrees with what generate_canonical consumes for this engine: a finding of its own per (engine, type, predicted, consumed)
+        chk.violation("C10:predictor:%s:%s:%s-vs-%s" % (name, T, bad.get("predK"), k), tp,
+                      "random_number_usage<%s, %s> reports %s raw outputs per number, generate_canonical consumes %s" % (T, name, bad.get("predK"), k))
+    else:
+        chk.violation("C10:consumption", tp, "probe %s / %s: event %d is not a step of Call.tla: %s" % (name, T, matched + 1, str(bad)[:400]))
+    return False
+
+
 def run(chk, replay=None):
+    import os
+    if replay and os.path.basename(replay).startswith("probe_"):
+        stem = os.path.basename(replay)[len("probe_"):-len(".ndjson")]
+        name, T = stem.rsplit("_", 1)
+        probe_one(chk, name, T, replay)
+        return
     if mpicommon.is_mpi_replay(replay):
         mpicommon.mpi_leg(chk, "C10:mpi", replay=replay)
         return
